@@ -285,6 +285,7 @@ const (
 	kUint32               // uint32: BitVec 32 unsigned (loops_strs.go)
 	kUint32s              // []uint32
 	kStrings              // []string, only as the result of a library call (read-only: indexed, measured, ranged over; loops_strs.go)
+	kBig                  // *big.Int: Int, under the ownership discipline of stage 10 (loops_big.go)
 )
 
 func (k lkind) lean() string {
@@ -317,6 +318,8 @@ func (k lkind) lean() string {
 		return "Option (String × Option (BitVec 64))"
 	case kInt8ss:
 		return "List (List (BitVec 8))"
+	case kBig:
+		return "Int"
 	}
 	die("lkind.lean")
 	return ""
@@ -475,6 +478,7 @@ type loopTr struct {
 	// stage 9 (loops_arr.go)
 	arrParams []types.Object // array parameters `a [N]T` (passed by value): lists assumed to have length N
 	namedRes  []types.Object // named results: locals bound to their zero values in front of the body
+	big       *bigState      // stage 10 (loops_big.go): the function uses *big.Int (nil otherwise)
 }
 
 func (t *loopTr) fail(n ast.Node, format string, a ...interface{}) {
@@ -501,6 +505,8 @@ func (t *loopTr) kindOf(ty types.Type, at ast.Node) lkind {
 		return kHash // a local hash.Hash: the bytes written so far (see loops_rec.go)
 	case isNamedType(ty, "encoding", "BinaryMarshaler"):
 		return kMarsh // the result of its MarshalBinary() (see loops_rec.go)
+	case isBigIntPtr(ty):
+		return kBig // stage 10 (loops_big.go)
 	}
 	switch u := ty.Underlying().(type) {
 	case *types.Basic:
@@ -725,6 +731,9 @@ func (t *loopTr) collectFacts() {
 			if o, m := t.builderCall(s); o != nil && m != "String" {
 				f.plain[o]++
 			}
+			if o := t.bigMutCall(s); o != nil {
+				f.plain[o]++ // stage 10: v.Op(…) on a *big.Int assigns v
+			}
 		case *ast.IncDecStmt:
 			if o := t.varOf(s.X); o != nil {
 				f.plain[o]++
@@ -807,6 +816,9 @@ func (t *loopTr) assignedIn(n ast.Node) (plain, indexed map[types.Object]bool) {
 			}
 			if o, m := t.hashCall(s); o != nil && m != "Sum" {
 				plain[o] = true
+			}
+			if o := t.bigMutCall(s); o != nil {
+				plain[o] = true // stage 10: v.Op(…) on a *big.Int assigns v
 			}
 		case *ast.IncDecStmt:
 			if o := t.varOf(s.X); o != nil {
